@@ -57,7 +57,21 @@ func (P) Facts() []core.Fact {
 
 // ---------------------------------------------------------------- exec (real code)
 
-func (P) Exec(line string) string {
+var dumpFile = os.Getenv("C12_DUMP")
+
+func (p P) Exec(line string) (out string) {
+	if dumpFile != "" {
+		defer func() {
+			if fh, err := os.OpenFile(dumpFile, os.O_APPEND|os.O_CREATE|os.O_WRONLY, 0o644); err == nil {
+				fmt.Fprintf(fh, "%s\t%s\n", line, out)
+				fh.Close()
+			}
+		}()
+	}
+	return p.exec(line)
+}
+
+func (P) exec(line string) string {
 	f := strings.Fields(line)
 	if len(f) < 2 || f[0] != "C12" {
 		return "bad-op"
@@ -82,11 +96,16 @@ func joinInts(xs []int64) string {
 
 func execTmpl(s *scenario) string {
 	w := getWorld(s.world)
-	ci, err := w.instantiate()
-	if err != nil {
-		panic(err)
+	var ci *chainInst
+	if s.roK > 0 || s.pb {
+		var err error
+		if ci, err = w.instantiate(); err != nil {
+			panic(err)
+		}
+		defer ci.close()
+	} else {
+		ci = getShared(s.world)
 	}
-	defer ci.close()
 	if s.roK > 0 {
 		if err := ci.reorg(s.roF, s.roK); err != nil {
 			dbg("reorg: %v", err)
@@ -288,6 +307,12 @@ func (s *scenario) observe(w *world, ci *chainInst, bp *builtPool, gen *mining.B
 	}
 
 	// solve and connect
+	if !s.pb {
+		if ci.chain.BestSnapshot().Height+1 != s.nextH {
+			return "chain-moved"
+		}
+		return s.render(tmpl, sel, cbv, weight, feeOK, sigOK, depOK, payOK, wcOK, addrOK, ccb, updOK, "-")
+	}
 	final := ublk
 	if s.upd {
 		final = ub
@@ -301,9 +326,14 @@ func (s *scenario) observe(w *world, ci *chainInst, bp *builtPool, gen *mining.B
 		dbg("ProcessBlock: %v main=%v orphan=%v", err, isMain, isOrphan)
 	}
 
+	return s.render(tmpl, sel, cbv, weight, feeOK, sigOK, depOK, payOK, wcOK, addrOK, ccb, updOK, b2s(pb))
+}
+
+func (s *scenario) render(tmpl *mining.BlockTemplate, sel []int64, cbv int64, weight int64,
+	feeOK, sigOK, depOK, payOK, wcOK, addrOK, ccb, updOK bool, pb string) string {
 	return fmt.Sprintf("ok sel=%s fees=%s sig=%s cbv=%d wc=%s w=%d chk=fee:%s,sig:%s,dep:%s,pay:%s,wc:%s,meta:%s,ccb:%s,upd:%s,pb:%s",
 		joinInts(sel), joinInts(tmpl.Fees), joinInts(tmpl.SigOpCosts), cbv, b2s(tmpl.WitnessCommitment != nil), weight,
-		b2s(feeOK), b2s(sigOK), b2s(depOK), b2s(payOK), b2s(wcOK), b2s(addrOK), b2s(ccb), b2s(updOK), b2s(pb))
+		b2s(feeOK), b2s(sigOK), b2s(depOK), b2s(payOK), b2s(wcOK), b2s(addrOK), b2s(ccb), b2s(updOK), pb)
 }
 
 // realPool admits the pool transactions to a real mempool.TxPool (parents
